@@ -228,6 +228,26 @@ impl Scenario for TwoWorld {
     }
 }
 
+/// A refused / unfinished registration next to a secret channel: such a connection is answered
+/// 451 whatever it asks and owns nothing (Spec + ownership oracle of ghost.rs).
+fn ghost(full: bool) -> crate::scn::ChatScn {
+    let mut s = super::ghost::ghost_scn("c12-ghost", crate::check::ALL_CATS, full);
+    s.prelude.push((0, "MODE #x +s".into()));
+    s.extra_actions = Some(Box::new(|_scn, v| {
+        let mut acts = vec![];
+        for slot in [1usize, 2] {
+            if v.life[slot] == crate::world::Life::Live && v.nick(slot).is_none() && v.infos[slot].as_ref().map_or(false, |i| i.nick.is_some()) {
+                for l in ["NAMES #x", "WHO #x", "LIST", "WHOIS alice", "PRIVMSG #x :psst"] {
+                    acts.push(Act::Send(slot, l.to_string()));
+                }
+            }
+        }
+        acts
+    }));
+    s.focus = crate::check::Focus { cats: crate::check::ALL_CATS.to_vec(), relays: true, relay_verbs: None, actor: true, actor_codes: Some(vec!["451", "353", "366", "352", "315", "322", "323", "311", "319", "318", "404"]), closes: false };
+    s
+}
+
 pub fn plan(quick: bool) -> Plan {
     let d = if quick { 7 } else { 8 };
     let t = if quick { 15.0 } else { 600.0 };
@@ -237,6 +257,9 @@ pub fn plan(quick: bool) -> Plan {
             parts.push(Part::Bfs(Box::new(TwoWorld { kind, observer_joins: oj, full: !quick }), lim(d, 2_000_000, t)));
         }
     }
+    // "every kind of outsider": a connection whose registration was refused or never finished is an
+    // outsider of everything - the contended-registration part (ghost.rs) with a secret channel
+    parts.push(Part::Bfs(Box::new(ghost(!quick)), lim(if quick { 6 } else { 7 }, 2_000_000, if quick { 20.0 } else { 600.0 })));
     Plan {
         property: "C12".into(),
         rule: "two-world E-SEQ BFS: members m1/m2 build a secret channel (JOIN #s, MODE +s, TOPIC, JOIN #p, PART; thorough adds +i/+k/+o/AWAY/+i user mode) or m1 becomes invisible and joins channels owned by m2; the observer is nowhere or in #p. In every reachable state where the hiding condition holds the history is replayed in a second real server world with the hidden part deleted (every command naming #s / the invisible user's whole connection) and the observer's LIST/NAMES/WHO/WHOIS battery (explicit names, comma lists, wildcard masks, no argument) must be answered identically (canonical form, client label and time fields masked) in both; PRIVMSG/NOTICE into the secret channel reach nobody".into(),
